@@ -63,8 +63,8 @@ pub const N_CAPS: usize = 8;
 pub const N_FLOWS: usize = 6;
 
 /// closure body of type int32 over parameter `p` and captured expressions c1, c2 (both int32)
-fn body(shape: usize, c1: Expr, c2: Expr) -> Expr {
-    let p = || var("p");
+fn body(shape: usize, c1: Expr, c2: Expr, pname: &str) -> Expr {
+    let p = || var(pname);
     match shape {
         0 => add(p(), add(bin(BinOp::Mul, c1, i(10)), c2)),
         1 => Expr::If(Box::new(bin(BinOp::Gt, p(), i(0))), Box::new(blk(vec![], c1)), Box::new(blk(vec![], c2))),
@@ -158,7 +158,10 @@ fn test(k: usize, shape: usize, cap: usize, flow: usize) -> Vec<FnDecl> {
         pre.push(let_("dsrc", Expr::StructLit { name: "Dw".into(), ty: Ty::Struct("Dw".into(), vec![]), fields: vec![("w".into(), c1.clone())] }));
         pre.push(Stmt::Let(Pat::Var("dcap".into()), Some(Ty::Dyn("Dv".into())), Expr::ToDyn("Dv".into(), Box::new(var("dsrc")))));
     }
-    let the_closure = clo(&[("p", I32)], body(shape, c1, c2));
+    // every other test whose body does not mention the enclosing function's parameter `a` names the closure's
+    // own parameter `a`: inside the body the name means the argument, not the enclosing binding
+    let pname = if (shape + cap + flow) % 2 == 1 && cap != 0 && cap != 7 { "a" } else { "p" };
+    let the_closure = clo(&[(pname, I32)], body(shape, c1, c2, pname));
     let name = format!("t{}", k);
     let mut fns = Vec::new();
     let show = |e: Expr| bi("string_println", vec![add(s(&format!("t{}=", k)), bi("int32_to_string", vec![e]))]);
